@@ -247,16 +247,63 @@ func ruleTableSections(c *eng.Ctx) {
 		}
 		return false
 	}
-	for _, f := range eng.Cluster(root, 2) {
-		var self ssa.Value
+	nodeParam := func(f *ssa.Function) ssa.Value {
 		for _, p := range f.Params {
 			if strings.HasSuffix(eng.TypeName(p.Type()), "html.Node") {
-				self = p
-				break
+				return p
 			}
 		}
-		if self == nil || !builds(f, 0) {
+		return nil
+	}
+	// cellLevel: f builds one cell from the node it is given (the cell's text is extracted from the
+	// parameter itself), as opposed to a row function that builds cells from the children it walks
+	cellLevel := func(f *ssa.Function) bool {
+		if f == nil || f.Blocks == nil || !direct(f) {
+			return false
+		}
+		self := nodeParam(f)
+		if self == nil {
+			return false
+		}
+		res := false
+		eng.Instrs(f, false, func(in ssa.Instruction) {
+			if !storesCell(in) {
+				return
+			}
+			for w := range eng.Slice(in.(*ssa.Store).Val, func(*ssa.Call) bool { return true }) {
+				if call, ok := w.(*ssa.Call); ok {
+					for _, a := range call.Call.Args {
+						if a == self {
+							res = true
+						}
+					}
+				}
+			}
+		})
+		return res
+	}
+	for _, f := range eng.Cluster(root, 3) {
+		self := nodeParam(f)
+		if self == nil || !builds(f, 0) || cellLevel(f) {
 			continue
+		}
+		passesChild := func(ci ssa.CallInstruction) bool {
+			n := 0
+			for _, a := range ci.Common().Args {
+				if a == self {
+					return false
+				}
+				if strings.HasSuffix(eng.TypeName(a.Type()), "html.Node") {
+					n++
+				}
+			}
+			return n > 0
+		}
+		var cellCalls []ssa.CallInstruction
+		for _, ci := range eng.Calls(f, false, func(string, ssa.CallInstruction) bool { return true }) {
+			if cal := ci.Common().StaticCallee(); cal != nil && cal != f && cellLevel(cal) && passesChild(ci) {
+				cellCalls = append(cellCalls, ci)
+			}
 		}
 		isChild := func(v ssa.Value) bool {
 			base, ok := htmlNodeField(v, "Data")
@@ -274,6 +321,16 @@ func ruleTableSections(c *eng.Ctx) {
 		case direct(f):
 			want = []string{"td", "th"}
 			target = storesCell
+		case len(cellCalls) > 0:
+			want = []string{"td", "th"}
+			target = func(in ssa.Instruction) bool {
+				for _, ci := range cellCalls {
+					if in == ssa.Instruction(ci) {
+						return true
+					}
+				}
+				return false
+			}
 		default:
 			want = []string{"tr"}
 			if f == root {
@@ -285,7 +342,7 @@ func ruleTableSections(c *eng.Ctx) {
 					return false
 				}
 				cal := ci.Common().StaticCallee()
-				if cal == nil || cal == f || !builds(cal, 0) {
+				if cal == nil || cal == f || !builds(cal, 0) || cellLevel(cal) {
 					return false
 				}
 				for _, a := range ci.Common().Args {
